@@ -1,5 +1,128 @@
-(** PLACEHOLDER during harness development; replaced by the real statements. *)
+(** C12 — After a reload returns, every thread filters with the new value.
+    Statements only; model Dispatch/Sched_Model.v (the same micro-step system as C04, see the reading guide in
+    Properties/C04.v), proofs Dispatch/Sched_Proofs_*.v.
+
+    [OReload c f] is reload.rs Handle::reload / modify on collector c's reloadable cell:
+      upgrade the weak handle (fails => Err(CollectorGone));  write-lock the cell;  assign f;  unlock;
+      then callsite::rebuild_interest_cache() = the writer section of C04 (retain, re-ask every callsite, set_max).
+    Collector callbacks read the cell under its read lock (they block while it is write-locked).  The theorems
+    quantify over EVERY schedule, any number of threads, any programs (several reloads of the same or different
+    collectors may overlap each other, emissions, registrations, creations and drops).
+    [inplay s c]: the values of c's cell that cached verdicts may still reflect = its current value plus the values
+    replaced by reloads that have assigned but whose rebuild pass has not completed ([C12_inplay_sound]). *)
+From Coq Require Import List Arith Bool.
 From TV Require Import Dispatch.Sched_Model.
-Theorem C12_placeholder : forall a, interest_and a a = a.
-Proof. destruct a; reflexivity. Qed.
-Print Assumptions C12_placeholder.
+From TV Require Import Dispatch.Sched_Proofs_Base.
+From TV Require Import Dispatch.Sched_Proofs_Ghost.
+From TV Require Import Dispatch.Sched_Proofs_Cache.
+From TV Require Import Dispatch.Sched_Proofs_Emit.
+From TV Require Import Dispatch.Sched_Proofs_Main.
+From TV Require Import Dispatch.Sched_Examples.
+Import ListNotations.
+
+(** ** Once every reload has returned, every emission that starts afterwards (and does not overlap a later reload) —
+    on any thread, at any callsite, whether its previous verdict was cached as `always` / `never` / `sometimes` or it
+    was never hit — is judged by the value now in the cell: delivered iff that value accepts the callsite.
+    ([quiet = true] says exactly: no reload was in flight when the emission started and none started before it
+    ended — see [C12_ghost_start], [C12_ghost_event], [C12_epoch_counts]; [fend] is the cell's value then.) *)
+Theorem C12_after_return :
+  forall W, WFworld W -> forall progs s, reachable (step W) (init progs) s ->
+  forall t cs c vals fend d, In (EvEmitEnd t cs (Some c) true vals fend d) (st_log s) ->
+  exists f, fend = Some f /\ d = (if accepts W f cs then Some c else None).
+Proof. exact quiet_exact. Qed.
+Print Assumptions C12_after_return.
+
+(** ... and by the new maximum level: with no reload in flight the global max level is not below the hint of the
+    value in any live collector's cell *)
+Theorem C12_max_level_after :
+  forall W progs s, reachable (step W) (init progs) s -> reload_inflight s = false ->
+  forall c, instP s c -> live s c = true -> w_hint W (st_cell s c) <= st_max s.
+Proof. exact max_level_after. Qed.
+Print Assumptions C12_max_level_after.
+
+(** while reloads are in flight it is not below the hint of one of the values in play *)
+Theorem C12_max_level_inplay :
+  forall W progs s, reachable (step W) (init progs) s ->
+  forall c, instP s c -> live s c = true -> exists f, In f (inplay s c) /\ w_hint W f <= st_max s.
+Proof. exact max_level_inplay. Qed.
+Print Assumptions C12_max_level_inplay.
+
+(** ** An emission racing with reloads is judged entirely by ONE value [f]: the whole verdict (level check, cached
+    interest, enabled(), delivery) is the verdict of that single value, never a mixture ... *)
+Theorem C12_racing_atomic :
+  forall W, WFworld W -> forall progs s, reachable (step W) (init progs) s ->
+  forall t cs c q vals fend d, In (EvEmitEnd t cs (Some c) q vals fend d) (st_log s) ->
+  exists f, In f vals /\ d = (if accepts W f cs then Some c else None).
+Proof. exact after_install. Qed.
+Print Assumptions C12_racing_atomic.
+
+(** ... where [vals] is a snapshot, taken by one of the emission's own steps, of the values in play for its collector
+    (or the one value its collector's enabled() read under the cell's lock) ... *)
+Theorem C12_vals_snapshot :
+  forall W s t s', step W s t = Some s' ->
+  eg_vals (th_eg (st_thr s' t)) = eg_vals (th_eg (st_thr s t)) \/
+  eg_vals (th_eg (st_thr s' t)) = vals_now s (eg_cur0 (th_eg (st_thr s' t))) \/
+  exists cs c, pcof s t = PEmEnCall cs c /\ eg_vals (th_eg (st_thr s' t)) = [st_cell s c].
+Proof. exact vals_snapshot. Qed.
+Print Assumptions C12_vals_snapshot.
+
+(** ... and "in play" means: the cell's current value (the new one), or a value replaced by a reload that has
+    assigned but not yet returned (the old one) — nothing else, in particular no value from before a completed reload *)
+Theorem C12_inplay_sound :
+  forall W progs s, reachable (step W) (init progs) s ->
+  forall c f, In f (inplay s c) -> f = st_cell s c \/ exists t, t < st_n s /\ pc_rl_old (pcof s t) = Some (c, f).
+Proof. exact inplay_sound. Qed.
+Print Assumptions C12_inplay_sound.
+
+Theorem C12_racing_nonvacuous :
+  reachable (step WX) (init PC) sC /\ In (EvEmitEnd 0 0 (Some 0) false [1; 0] (Some 1) (Some 0)) (st_log sC) /\
+  In (EvReload 1 0 1 true) (st_log sC) /\ finished sC = true.
+Proof. exact racing_witness. Qed.
+Print Assumptions C12_racing_nonvacuous.
+
+(** ** A handle whose collector is gone reports the error instead of acting: the step logs Err(CollectorGone) and
+    changes nothing else (no lock taken, no cell written, no rebuild) ... *)
+Theorem C12_gone :
+  forall W s t c f rest, t < st_n s -> th_pc (st_thr s t) = PIdle ->
+  th_prog (st_thr s t) = OReload c f :: rest -> st_created s c = true -> live s c = false ->
+  step W s t = Some (emit_log (EvReload t c f false) (upd_thr t (set_prog rest (st_thr s t)) s)).
+Proof. exact reload_gone. Qed.
+Print Assumptions C12_gone.
+
+(** ... and a collector that is gone stays gone (no step resurrects it) *)
+Theorem C12_gone_forever :
+  forall W s t s' c, step W s t = Some s' -> st_created s c = true -> live s c = false -> live s' c = false.
+Proof. exact gone_forever. Qed.
+Print Assumptions C12_gone_forever.
+
+Theorem C12_gone_nonvacuous :
+  reachable (step WX) (init PG) sG /\ 0 < st_n sG /\ th_pc (st_thr sG 0) = PIdle /\ th_prog (st_thr sG 0) = [OReload 0 1] /\
+  st_created sG 0 = true /\ live sG 0 = false.
+Proof. exact gone_witness. Qed.
+Print Assumptions C12_gone_nonvacuous.
+
+(** ** Meaning of the history variables. *)
+Theorem C12_ghost_start :
+  forall W s t s', step W s t = Some s' -> pcof s t = PIdle -> em_pc (pcof s' t) = true ->
+  eg_cur0 (th_eg (st_thr s' t)) = cur s t /\ eg_q0 (th_eg (st_thr s' t)) = negb (reload_inflight s) /\
+  eg_ep0 (th_eg (st_thr s' t)) = st_epoch s.
+Proof. exact ghost_start. Qed.
+Print Assumptions C12_ghost_start.
+
+Theorem C12_ghost_event :
+  forall W s t s' t' cs cur0 quiet vals fend d, step W s t = Some s' ->
+  In (EvEmitEnd t' cs cur0 quiet vals fend d) (new_events s s') ->
+  t' = t /\ fend = option_map (st_cell s) cur0 /\
+  ((pcof s t = PIdle /\ cur0 = cur s t /\ quiet = negb (reload_inflight s) /\ vals = vals_now s cur0 /\ d = None) \/
+   (em_pc (pcof s t) = true /\ cur0 = eg_cur0 (th_eg (st_thr s t)) /\
+    quiet = (eg_q0 (th_eg (st_thr s t)) && (eg_ep0 (th_eg (st_thr s t)) =? st_epoch s)))).
+Proof. exact emit_event_ghost. Qed.
+Print Assumptions C12_ghost_event.
+
+(** the epoch counts started reloads: it moves exactly when a thread enters a reload *)
+Theorem C12_epoch_counts :
+  forall W s t s', step W s t = Some s' ->
+  (st_epoch s' = S (st_epoch s) /\ pc_reloading (pcof s t) = false /\ pc_reloading (pcof s' t) = true) \/
+  (st_epoch s' = st_epoch s /\ (pc_reloading (pcof s' t) = true -> pc_reloading (pcof s t) = true)).
+Proof. exact epoch_counts. Qed.
+Print Assumptions C12_epoch_counts.
